@@ -21,7 +21,13 @@ LISTS = [
     [('pad', 'a'), ('bool', None), ('bin', None)],
     [('bits', None)],
     [('uintle', 'a'), ('hex', 'b'), ('oct', None)],
+    # self-delimiting codes before (allowed) and after (refused) the length-less token
+    [('ue', None), ('hex', None), ('int', 'a')],
+    [('uint', 'a'), ('se', None), ('bits', None), ('uint', 'b')],
+    [('bits', None), ('ue', None)],
+    [('ue', None), ('se', None)],
 ]
+VARIABLE = ('ue', 'se')
 
 
 def _mk_list(S, interp, L):
@@ -76,7 +82,10 @@ def read_dtype_list_spec(C, self, dtypes, pos):
     later = 0
     seen_stretchy = False
     for name, L, unit in info:
-        if L is None:
+        if name in VARIABLE:
+            if seen_stretchy:
+                C.throw('Error')          # a self-delimiting code cannot follow the length-less token
+        elif L is None:
             if seen_stretchy:
                 C.throw('Error')
             seen_stretchy = True
@@ -85,6 +94,17 @@ def read_dtype_list_spec(C, self, dtypes, pos):
     vals = []
     p = pos
     for name, L, unit in info:
+        if name in VARIABLE:
+            from .golomb import readue_core
+            if C.lsb0:
+                C.throw('ReadError')
+            c, used = readue_core(C, sub(V, p, V.n), 0)      # (the code reads the codeword from the tail bits[pos:])
+            p = p + used
+            if name == 'se':
+                m = (c + 1) // 2
+                c = m if sym.truth(sym.eq(c % 2, 1)) else -m
+            vals.append(c)
+            continue
         if L is None:
             bl = smax(V.n - p - later, 0)
             if sym.truth(lnot(sym.eq(bl % unit, 0))):
@@ -142,6 +162,91 @@ def pack_spec(C, fmt, *values, **kwargs):
         if not it:
             C.throw('ValueError')
         V = cat(V, enc_row(C, name, it.pop(0), n))
+    if it:
+        C.throw('ValueError')
+    return mk_bits(C, C.cls('BitStream'), V, pos=0)
+
+
+# ---- pack with 'bits' tokens: the values are bitstrings (or strings denoting them) whose stores must not be adopted ---------------
+from .common import m_operand, r_operand, promote_bits, opname
+
+BITS_PACKS = [
+    ('bits', [('bits', None)], {}, 1),
+    ('bits:n', [('bits', 'n')], {'n': 'n'}, 1),
+    ('bits, uint:8', [('bits', None), ('uint', 8)], {}, 1),
+    ('uint:8, bits', [('uint', 8), ('bits', None)], {}, 1),
+    ('bits:n, pad:3', [('bits', 'n'), ('pad', 3)], {'n': 'n'}, 1),
+    ('bits, bits, bits', [('bits', None)] * 3, {}, 3),          # the same object may be passed for all three
+]
+_BITS_OPERANDS = [('obj', 'Bits', 'immutable'), ('obj', 'BitArray', 'plain'), ('obj', 'BitStream', 'plain'), ('obj', 'Bits', 'buffer'), ('str',)]
+
+
+def _pack_bits_shapes():
+    out = []
+    for fmt, toks, kws, nb in BITS_PACKS:
+        for kind in _BITS_OPERANDS:
+            for same_obj in ((False, True) if nb > 1 else (False,)):
+                def build(S, interp, fmt=fmt, toks=toks, kws=kws, kind=kind, same_obj=same_obj):
+                    vals = []
+                    first = None
+                    k = 0
+                    for name, _ln in toks:
+                        if name == 'pad':
+                            continue
+                        if name == 'bits':
+                            if same_obj and first is not None:
+                                vals.append(first)
+                            else:
+                                first = m_operand(S, interp, f'b{k}', kind, None)
+                                vals.append(first)
+                            k += 1
+                        else:
+                            vals.append(S.int('v'))
+                    return [fmt] + vals, {q: S.int(q) for q in kws}
+
+                def real(vals, fmt=fmt, toks=toks, kws=kws, kind=kind, same_obj=same_obj):
+                    out_v = []
+                    first = None
+                    k = 0
+                    for name, _ln in toks:
+                        if name == 'pad':
+                            continue
+                        if name == 'bits':
+                            if same_obj and first is not None:
+                                out_v.append(first)
+                            else:
+                                first = r_operand(vals, f'b{k}', kind, None)
+                                out_v.append(first)
+                            k += 1
+                        else:
+                            out_v.append(vals['v'])
+                    return [fmt] + out_v, {q: vals[q] for q in kws}
+                out.append(Shape(f'{fmt!r}/{opname(kind)}' + ('/same-object' if same_obj else ''), build, real))
+    return out
+
+
+@contract('methods.pack@bits', target='methods.pack', shapes=_pack_bits_shapes(), props={'C05', 'C04', 'C02'}, kind='public', observe_args=True,
+          note="pack with 'bits' tokens: the values' bits are concatenated into a *new* BitStream; a 'bits:n' token takes exactly n bits "
+               "(CreationError otherwise); the values themselves are unchanged and share nothing with the result")
+def pack_bits_spec(C, fmt, *values, **kwargs):
+    toks = next(t for f, t, k, _ in BITS_PACKS if f == fmt)
+    V = zeros(0)
+    it = list(values)
+    for name, ln in toks:
+        n = kwargs[ln] if isinstance(ln, str) else ln
+        if name == 'pad':
+            V = cat(V, zeros(n))
+            continue
+        if not it:
+            C.throw('ValueError')
+        v = it.pop(0)
+        if name == 'bits':
+            W = promote_bits(C, v)
+            if n is not None and sym.truth(lnot(sym.eq(W.n, n))):
+                C.throw('ValueError')
+            V = cat(V, W)
+        else:
+            V = cat(V, enc_row(C, name, v, n))
     if it:
         C.throw('ValueError')
     return mk_bits(C, C.cls('BitStream'), V, pos=0)
